@@ -71,6 +71,7 @@ type Seq struct {
 type Hooks struct {
 	BeforeOp func(s *Seq, i int, op *Op)
 	AfterOp  func(s *Seq, i int, op *Op)
+	Final    func(s *Seq) // after the final checks, on a freshly reopened handle
 }
 
 type hookEv struct {
@@ -222,6 +223,9 @@ func (s *Seq) Run() {
 			s.curOp = &Op{K: "final"}
 			s.prng = simrt.NewRand(simrt.Mix(s.W.Seed, 78))
 			s.finalChecks()
+			if s.Hooks.Final != nil {
+				s.Hooks.Final(s)
+			}
 		})
 	})
 	s.absorbWorld()
